@@ -90,7 +90,7 @@ func (l *local) add(k string, n int) { l.counts[k] += n }
 func TestCheck(t *testing.T) {
 	run := vlib.Start(t, "C14", "exploration")
 	defer run.Finish()
-	run.Rule("case = one generated schema (0-4 reflect.StructOf objects with scalar/pointer/slice/enum/union/text-marshaler/object fields and key tags, a pool of predeclared named objects, unions, enums, named scalars, text marshalers, keyed and recursive objects; 4-9 root field funcs and 0-5 per object minted by reflect.MakeFunc over every signature form ctx?/source(value|pointer)?/args?/selectionSet? -> result?/error?, options NonNullable, ListEntryNonNullable, Expensive, NumParallelInvocationsFunc, Paginated, BatchFieldFunc, BatchFieldFuncWithFallback; StructOf arg structs incl. named input objects, enums, lists, optional/pointer args) " +
+	run.Rule("case = one generated schema (0-4 reflect.StructOf objects with scalar/pointer/slice/enum/union/text-marshaler/object fields and key tags, a pool of predeclared named objects, unions, enums (one of them with alias names: two names for one value), named scalars, text marshalers, keyed and recursive objects; 4-9 root field funcs and 0-5 per object minted by reflect.MakeFunc over every signature form ctx?/source(value|pointer)?/args?/selectionSet? -> result?/error?, options NonNullable, ListEntryNonNullable, Expensive, NumParallelInvocationsFunc, Paginated, BatchFieldFunc, BatchFieldFuncWithFallback; StructOf arg structs incl. named input objects, enums, lists, optional/pointer args) " +
 		"x N queries generated from the advertised graph (depth<=4, aliases, merged duplicates, inline and shared named fragments, union member subsets, __typename at any level, args from advertised arg types, query and mutation roots, fragments on the union type itself, the same composite field under two aliases with equal arguments and different sub-selections - every second time for Expensive fields); every query with such a pair and every fourth other accepted query is executed a second time inside a reactive.Rerunner with batch.WithBatching (as the HTTP handler does; only there the reactive result cache of Expensive fields is used) and checked by the same conformance oracle; each query is evaluated undamaged and with exactly one damage out of {unknown field, sub-selection on scalar/enum/__typename, missing sub-selection on object/union, unknown field inside an applicable fragment (incl. inside `... on U` under a U-typed field), one named fragment spread at two places whose second object type gives the same field name another kind or object type (thunder applies a fragment to any object it is spread in; both visiting orders), one well-formed named fragment spread at two places of one type with an ordinary damage next to one spread}. " +
 		"Resolver results are legal Go values of the declared types (valid enum members, one-hot unions, nil pointers only under nullable types, nil/empty slices, nil entries in pointer lists, missing batch entries only without NonNullable). " +
 		"Non-trivial = the advertised schema has >= 3 of {union, enum, list of objects, nullable object, batch/expensive field, args}; distinct = hash(schema shape, query text, damage).")
